@@ -82,6 +82,40 @@ def fallbacks_for(prop: str) -> dict:
     return {k: v for k, v in st.items() if v != 'translated' and (SITE_PROPS.get(k) == prop or prop in SITE_ALSO.get(k, []))}
 
 
+# closed-form signal models: `forward` translated element-wise over a scalar type with `M.Transc`
+FLOAT_SITES = [
+    dict(name='invRec', file='operators/models/InversionRecovery.py', func=('InversionRecovery', 'forward'), inputs=['m0', 't1', 'self_ti'], model='M.invRec'),
+    dict(name='satRec', file='operators/models/SaturationRecovery.py', func=('SaturationRecovery', 'forward'), inputs=['m0', 't1', 'self_ti'], model='M.satRec'),
+    dict(name='monoExp', file='operators/models/MonoExponentialDecay.py', func=('MonoExponentialDecay', 'forward'),
+         inputs=['m0', 'decay_constant', 'self_decay_time'], model='M.monoExp'),
+    dict(name='molli', file='operators/models/MOLLI.py', func=('MOLLI', 'forward'), inputs=['a', 'c', 't1', 'self_ti'], model='M.molli'),
+    dict(name='tss', file='operators/models/TransientSteadyStateWithPreparation.py', func=('TransientSteadyStateWithPreparation', 'forward'),
+         inputs=['m0', 't1', 'flip_angle', 'self_sampling_time', 'self_repetition_time', 'self_m0_scaling_preparation', 'self_delay_after_preparation'],
+         model='M.tss'),
+    dict(name='wasabi', file='operators/models/WASABI.py', func=('WASABI', 'forward'),
+         inputs=['b0_shift', 'relative_b1', 'c', 'd', 'self_offsets', 'self_tp', 'self_b1_nom', 'self_gamma'], model='M.wasabi'),
+    dict(name='wasabiti', file='operators/models/WASABITI.py', func=('WASABITI', 'forward'),
+         inputs=['b0_shift', 'rb1', 't1', 'self_offsets', 'self_trec', 'self_tp', 'self_b1_nom', 'self_gamma'], model='M.wasabiti'),
+]
+for _s in FLOAT_SITES:
+    SITE_PROPS['sig_' + _s['name']] = 'C17'
+
+
+def translate_float_site(site):
+    name = 'sig_' + site['name']
+    try:
+        tree = ast.parse((SRC / site['file']).read_text())
+        fn = _find(tree, *site['func'])
+        text = py2lean.float_function(fn, site['inputs'], name)
+        return f'/-- translated from `{site["file"]}:{fn.name} (line {fn.lineno})` -/\n{text}\ndef {name}_translated : Bool := true', 'translated'
+    except (py2lean.Untranslatable, OSError, SyntaxError) as e:
+        sig = ' '.join(f'({py2lean._lean_name(p)} : K)' for p in site['inputs'])
+        args = ' '.join(py2lean._lean_name(p) for p in site['inputs'])
+        text = (f'/-- FALLBACK (source outside the translatable fragment: {str(e)[:100]}): the hand-written model -/\n'
+                f'def {name} {sig} : K :=\n  {site["model"]} {args}\ndef {name}_translated : Bool := false')
+        return text, f'fallback: {e}'
+
+
 def _find(tree, cls, func):
     scope = tree
     if cls is not None:
@@ -126,7 +160,7 @@ def translate_site(site):
 
 def generate():
     out = ['import Mrpro.Model.Index', 'import Mrpro.Model.Ops', 'import Mrpro.Model.KDataOps',
-           'import Mrpro.Model.SrcModel', '',
+           'import Mrpro.Model.SrcModel', 'import Mrpro.Model.Signal', '',
            '/-! GENERATED by harness/translate_src.py from /repo/src on every check run. Do not edit. -/', '',
            'namespace M.Src', '']
     status = {}
@@ -134,7 +168,13 @@ def generate():
         text, st = translate_site(site)
         out += [text, '']
         status[site['name']] = st
-    out += ['end M.Src', '']
+    out += ['/-! closed-form signal models, element-wise -/', 'section Signal',
+            'variable {K : Type} [Add K] [Sub K] [Mul K] [Div K] [Neg K] [OfNat K 0] [OfNat K 1] [OfNat K 2] [M.Transc K]', 'open M', '']
+    for site in FLOAT_SITES:
+        text, st = translate_float_site(site)
+        out += [text, '']
+        status['sig_' + site['name']] = st
+    out += ['end Signal', '', 'end M.Src', '']
     return '\n'.join(out), status
 
 
